@@ -359,6 +359,14 @@ class Ctx:
         if k == "Block":
             if not n.get("stmts") and n.get("expr") is not None:
                 return self.term(n["expr"], subst)
+            if str(n.get("ty")) == "!":
+                return ("diverge", n["id"])          # a block that never produces a value (panic!, return, ..)
+            if n.get("expr") is not None and not n.get("m") and str(n.get("ty")) not in ("()", "!"):
+                # a block expression `{ let a = ..; ..; value }`: its value is its tail (locals are resolved by the
+                # position-sensitive let inlining as anywhere else; side effects of the statements are effects, not values)
+                t = self.term(n["expr"], subst)
+                if t[0] != "block":
+                    return t
             return ("block", n["id"])
         if k == "Tup":
             return ("tup",) + tuple(self.term(x, subst) for x in n["es"])
@@ -413,6 +421,12 @@ class Ctx:
                 which = "min" if lo_first == picks_left else "max"
                 a_, b_ = sorted([c_[2], c_[3]], key=repr)
                 return ("call", "std::cmp::%s" % which, a_, b_)
+            if ty == "bool":
+                # `if a { b } else { false }` is a && b ; `if a { true } else { b }` is a || b
+                if el_ == ("bool", False):
+                    return ("op", "&&", c_, th_)
+                if th_ == ("bool", True):
+                    return ("op", "||", c_, el_)
             return ("ite", c_, th_, el_)
         if k == "Range":
             return ("range", self.term(n["lo"], subst), self.term(n["hi"], subst), bool(n.get("incl")))
